@@ -32,6 +32,10 @@ func init() {
 		resetOptions()
 		if k.Kind == "bytes" {
 			c15Bytes(c, k.Input, k.API)
+		} else if k.Kind == "stall" {
+			n := 0
+			fmt.Sscan(k.Args[0], &n)
+			c15Stall(c, k.Input, n, k.API)
 		} else {
 			var m map[string]interface{}
 			json.Unmarshal(k.Map, &m)
@@ -63,6 +67,70 @@ func (h *horizonReader) Read(p []byte) (int, error) {
 }
 
 func newHR(b []byte) *horizonReader { return &horizonReader{data: b, max: 20*len(b) + 200} }
+
+// stallReader delivers the first n bytes one at a time and then answers (0, nil) for ever: a legal
+// but useless io.Reader. The decoders must give up with an error, not spin or panic.
+type stallReader struct {
+	data  []byte
+	n     int
+	pos   int
+	calls int
+}
+
+func (s *stallReader) Read(p []byte) (int, error) {
+	s.calls++
+	if s.calls > 5000 {
+		panic("stalling reader polled more than 5000 times: the call does not terminate")
+	}
+	if s.pos < s.n && s.pos < len(s.data) && len(p) > 0 {
+		p[0] = s.data[s.pos]
+		s.pos++
+		return 1, nil
+	}
+	return 0, nil
+}
+
+func c15Stall(c *Ctx, in []byte, n int, api string) {
+	cas := func() interface{} {
+		return c15Case{Kind: "stall", Input: in, Text: string(in), API: api, Args: []string{fmt.Sprint(n)}}
+	}
+	c.S.Transitions++
+	c.S.Validated++
+	var err error
+	var m map[string]interface{}
+	st, pan := protect(func() {
+		r := &stallReader{data: in, n: n}
+		switch api {
+		case "NewMapXmlReader":
+			m, err = mxj.NewMapXmlReader(r)
+		case "NewMapXmlReaderRaw":
+			m, _, err = mxj.NewMapXmlReaderRaw(r)
+		case "NewMapXmlSeqReader":
+			m, err = mxj.NewMapXmlSeqReader(r)
+		case "NewMapXmlSeqReaderRaw":
+			m, _, err = mxj.NewMapXmlSeqReaderRaw(r)
+		case "NewMapJsonReader":
+			m, err = mxj.NewMapJsonReader(r)
+		case "NewMapJsonReaderRaw":
+			m, _, err = mxj.NewMapJsonReaderRaw(r)
+		case "HandleXmlReaderRaw":
+			err = mxj.HandleXmlReaderRaw(r, func(mxj.Map, []byte) bool { return true }, func(error, []byte) bool { return false })
+		case "HandleJsonReaderRaw":
+			err = mxj.HandleJsonReaderRaw(r, func(mxj.Map, []byte) bool { return true }, func(error, []byte) bool { return false })
+		}
+	})
+	if pan {
+		c.Violate(api, "panic", "stalling-reader", cas, nil, fmt.Sprintf("input=%q stalls after %d bytes\n%s", in, n, st))
+		return
+	}
+	c.Outcome(fmt.Sprintf("stall|%s|%v|%d", api, err != nil, len(m)))
+	if err == nil && n < len(in) && !strings.HasPrefix(api, "Handle") {
+		// the first document is incomplete: a Map without an error would be a partial result
+		if len(m) > 0 && !xmlFirstDocOK(in[:n]) && !strings.Contains(api, "Json") {
+			c.Violate(api, "partial-map-with-error", "stalling-reader", cas, nil, fmt.Sprintf("input=%q stalls after %d bytes: returned %s without error", in, n, dump(m)))
+		}
+	}
+}
 
 // xmlFirstDocOK: does encoding/xml's Token() accept the input up to the end of the first root element?
 func xmlFirstDocOK(b []byte) bool {
@@ -366,7 +434,7 @@ func mutate1(seed []byte, f func(b []byte)) {
 
 func c15Run(c *Ctx) {
 	mustBeDefault(c)
-	c.S.Rule = "part (a): seed documents (10 XML incl. prolog/comments/PIs/CDATA/namespaces/BOM/two roots/DOCTYPE, 6 JSON incl. braces and quotes in strings and a trailing escaped backslash, 1 gob) x every truncation, single-byte deletion, substitution and insertion from {< > / & \" = { } [ ] \\ a space 0xFF} at every offset (deviation bound 1; pairs of deviations on the short seeds in thorough) x every decoder form (byte, reader, ByteReader, raw, bulk handlers, formatted, BeautifyXml, gob, x2j-wrapper Unmarshal/DocToMap); oracle: no panic, termination (reader horizon), fails iff the standard tokenizer rejects the first document (Token for the Map decoders, RawToken + name matching for the sequence decoders, encoding/json for JSON), no partial Map with an error, documented no-root result, and the decoded Map encodes without panic. part (b): Maps with <= 4 nodes over keys {a, k, \"\"} x malformed and well-formed path / key / sub-key / new-value / key-pair strings x every query and update method and the x2j-wrapper walkers; oracle: no panic. non-trivial = distinct (api, outcome) pairs are counted in distinct_outcomes; every case counts."
+	c.S.Rule = "part (a): seed documents (10 XML incl. prolog/comments/PIs/CDATA/namespaces/BOM/two roots/DOCTYPE, 6 JSON incl. braces and quotes in strings and a trailing escaped backslash, 1 gob) x every truncation, single-byte deletion, substitution and insertion from {< > / & \" = { } [ ] \\ a space 0xFF} at every offset (deviation bound 1; pairs of deviations on the short seeds in thorough) x every decoder form (byte, reader, ByteReader, raw, bulk handlers, formatted, BeautifyXml, gob, x2j-wrapper Unmarshal/DocToMap), plus readers that stall with (0,nil) for ever after every prefix length; oracle: no panic, termination (reader horizon), fails iff the standard tokenizer rejects the first document (Token for the Map decoders, RawToken + name matching for the sequence decoders, encoding/json for JSON), no partial Map with an error, documented no-root result, and the decoded Map encodes without panic. part (b): Maps with <= 4 nodes over keys {a, k, \"\"} x malformed and well-formed path / key / sub-key / new-value / key-pair strings x every query and update method and the x2j-wrapper walkers; oracle: no panic. non-trivial = distinct (api, outcome) pairs are counted in distinct_outcomes; every case counts."
 	c.S.Assumptions = []string{"reference acceptance = encoding/xml Token()/RawToken()+nesting, encoding/json Decoder", "JSON array followed by trailing bytes: accept and reject both accepted (see C06)"}
 	xmls, jsons, gob := c15Seeds()
 	xmlAPIs := []string{"NewMapXml", "NewMapXml(cast)", "NewMapXmlReader", "NewMapXmlReader(ByteReader)", "NewMapXmlReaderRaw", "NewMapXmlSeq", "NewMapXmlSeq(cast)",
@@ -412,6 +480,24 @@ func c15Run(c *Ctx) {
 		runBytes(s, []string{"NewMapXml", "NewMapXmlSeq"}, false)
 	}
 	runBytes(gob, []string{"NewMapGob"}, false)
+	// stalling readers: every prefix length of a few seeds
+	for _, s := range append(append([][]byte{}, xmls[:4]...), jsons[:2]...) {
+		apis := []string{"NewMapXmlReader", "NewMapXmlReaderRaw", "NewMapXmlSeqReader", "NewMapXmlSeqReaderRaw", "HandleXmlReaderRaw"}
+		if s[0] == '{' {
+			apis = []string{"NewMapJsonReader", "NewMapJsonReaderRaw", "HandleJsonReaderRaw"}
+		}
+		for n := 0; n <= len(s); n++ {
+			for _, api := range apis {
+				if !c.Mine() {
+					continue
+				}
+				c.S.States++
+				c.S.Evaluations++
+				c.S.Schedules++
+				c15Stall(c, s, n, api)
+			}
+		}
+	}
 	c.S.BoundCompleted = 1
 	if c.Thorough {
 		c.S.BoundCompleted = 2
